@@ -126,17 +126,20 @@ func (a *Act) callStatic(instr ssa.Instruction, c *ssa.CallCommon, rt types.Type
 	if m, ok := externModels[name]; ok {
 		return m(a, instr, rt, args)
 	}
-	if len(callee.Blocks) > 0 && a.depth < maxInlineDepth && (ct != nil || !hasLoop(callee)) && !isRecursive(callee) {
+	if inRepo(callee) && len(callee.Blocks) > 0 && a.depth < maxInlineDepth && (ct != nil || !hasLoop(callee)) && !isRecursive(callee) {
 		return a.inlineCall(instr, callee, args, nil)
 	}
 	if pureExtern[name] || (callee.Pkg != nil && pureExternPkg[callee.Pkg.Pkg.Path()]) {
 		a.vc.assumed["external function assumed not to touch verified memory and not to panic; result unconstrained (fresh): "+name] = true
 		pre := a.alloc(a.cur)
-		v := a.opaque(instr, name, rt, args, false)
 		// returned slices / pointers are freshly allocated (or nil)
 		na := a.vc.declare("alloc_x", SortInt)
 		a.vc.assume("true", app("<=", pre, na))
 		a.cur.mem.m["alloc"] = na
+		v := a.opaque(instr, name, rt, args, false)
+		if nonNilExtern[name] && v.Sort == SortInt {
+			a.vc.assume(a.cur.reach, app("<", "0", v.Term))
+		}
 		for _, f := range flattenVal(v) {
 			if f.T == nil {
 				continue
@@ -152,6 +155,22 @@ func (a *Act) callStatic(instr ssa.Instruction, c *ssa.CallCommon, rt types.Type
 	}
 	a.vc.assumed["opaque (memory havocked, assumed not to panic): "+name] = true
 	return a.opaque(instr, name, rt, args, true)
+}
+
+// library constructors that never return nil
+var nonNilExtern = map[string]bool{"fmt.Errorf": true, "errors.New": true, "bufio.NewScanner": true, "bufio.NewReader": true}
+
+// inRepo reports whether fn belongs to the repository under verification (library
+// functions are never inlined: they are modelled or treated as external).
+func inRepo(fn *ssa.Function) bool {
+	f := fn
+	if f.Pkg == nil && f.Origin() != nil {
+		f = f.Origin()
+	}
+	for f.Pkg == nil && f.Parent() != nil {
+		f = f.Parent()
+	}
+	return f.Pkg != nil && strings.HasPrefix(f.Pkg.Pkg.Path(), "github.com/crillab/gophersat")
 }
 
 var pureExternPkg = map[string]bool{"strings": true, "strconv": true, "errors": true, "math": true, "unicode": true, "time": true, "bufio": true, "os": true}
